@@ -303,12 +303,69 @@ fn shared_state(src: &str) -> Result<serde_json::Value, String> {
     }))
 }
 
+/// `vx scan bodyhash --src DIR --fns file.rs::Type::name,file.rs::::free_fn,...`: a whitespace- and comment-insensitive
+/// hash (FNV-1a over the token stream) of each named function's source. Used to pin ASSUMED contracts to the body they
+/// were stated for: an assumed contract says nothing about a body that has changed.
+fn bodyhash(src: &str, fns: &str) -> Result<serde_json::Value, String> {
+    let files = parse_dir(src)?;
+    let mut out = serde_json::Map::new();
+    for spec in fns.split(',').filter(|x| !x.is_empty()) {
+        let (file, path) = spec.split_once("::").ok_or(format!("bad fn spec `{spec}`"))?;
+        let (ty, name) = match path.rsplit_once("::") {
+            Some((t, n)) => (t.trim_start_matches(':').to_string(), n.to_string()),
+            None => (String::new(), path.to_string()),
+        };
+        let mut found: Vec<String> = vec![];
+        for (fname, _t, ast) in &files {
+            if fname != file {
+                continue;
+            }
+            for it in &ast.items {
+                match it {
+                    syn::Item::Fn(f) if ty.is_empty() && f.sig.ident == name => found.push(quote::quote!(#f).to_string()),
+                    syn::Item::Impl(im) if !ty.is_empty() && im.trait_.is_none() => {
+                        let tyname = match &*im.self_ty {
+                            syn::Type::Path(p) => p.path.segments.last().map(|s| s.ident.to_string()).unwrap_or_default(),
+                            _ => String::new(),
+                        };
+                        if tyname == ty {
+                            for ii in &im.items {
+                                if let syn::ImplItem::Fn(f) = ii {
+                                    if f.sig.ident == name {
+                                        found.push(quote::quote!(#f).to_string());
+                                    }
+                                }
+                            }
+                        }
+                    }
+                    _ => {}
+                }
+            }
+        }
+        let v = if found.is_empty() {
+            "missing".to_string()
+        } else {
+            let mut h: u64 = 0xcbf29ce484222325;
+            for t in &found {
+                for b in t.bytes() {
+                    h ^= b as u64;
+                    h = h.wrapping_mul(0x100000001b3);
+                }
+            }
+            format!("{h:016x}")
+        };
+        out.insert(spec.to_string(), serde_json::Value::String(v));
+    }
+    Ok(serde_json::Value::Object(out))
+}
+
 pub fn run(pos: &[String], opts: &HashMap<String, String>) -> Result<i32, String> {
     let name = pos.first().ok_or("scan name")?;
     let src = opts.get("src").ok_or("missing --src")?;
     let j = match name.as_str() {
         "frame" => frame(src)?,
         "shared_state" => shared_state(src)?,
+        "bodyhash" => bodyhash(src, opts.get("fns").ok_or("missing --fns")?)?,
         other => return Err(format!("unknown scan `{other}`")),
     };
     let s = serde_json::to_string_pretty(&j).unwrap();
